@@ -26,6 +26,7 @@ ROOT = Path(__file__).resolve().parent.parent
 REPO_SRC = os.environ.get("VF_REPO_SRC", "/repo/src")
 EVIDENCE_DIR = ROOT / "evidence"
 REPLAY_DIR = ROOT / "replays"
+REPLAY_OUT = Path(os.environ["VF_REPLAY_DIR"]) if os.environ.get("VF_REPLAY_DIR") else REPLAY_DIR  # where new counterexamples go
 KNOWN_FILE = ROOT / "known_findings.json"
 
 MAX_SAMPLES = 6
@@ -351,7 +352,7 @@ def run_shard(args):
 
 
 def write_replay(pid, cname, viol) -> Path:
-    d = REPLAY_DIR / pid
+    d = REPLAY_OUT / pid
     d.mkdir(parents=True, exist_ok=True)
     body = {"property": pid, "clause": cname, "label": viol["label"], "message": viol["msg"],
             "details": viol["details"], "case": viol["case"]}
